@@ -203,10 +203,42 @@ def discharge(o, timeout_ms=10000):
     return o
 
 
+def skolem_instances(hyps, goal, cap=60):
+    """Instances of the universally quantified integer-indexed hypotheses at the Skolem constants of the goal.
+
+    A goal  forall p. phi(p)  is proved as phi(c) for a fresh c; hypotheses  forall q. psi(q)  whose bound variable only occurs
+    under arithmetic (no usable trigger) are never instantiated by E-matching, so psi(c) is added explicitly.  Instances are
+    consequences of the hypotheses: the strategy is sound."""
+    if not (z3.is_quantifier(goal) and goal.is_forall()):
+        return None
+    n = goal.num_vars()
+    consts = [z3.Const('sk!%s!%d' % (goal.var_name(i), i), goal.var_sort(i)) for i in range(n)]
+    body = z3.substitute_vars(goal.body(), *reversed(consts))
+    ints = [c for c in consts if c.sort() == z3.IntSort()]
+    if not ints:
+        return None
+    extra = []
+    for h in hyps:
+        if z3.is_quantifier(h) and h.is_forall() and h.num_vars() == 1 and h.var_sort(0) == z3.IntSort():
+            for c in ints:
+                extra.append(z3.substitute_vars(h.body(), c))
+                if len(extra) >= cap:
+                    break
+        if len(extra) >= cap:
+            break
+    if not extra:
+        return None
+    return list(hyps) + extra, body
+
+
 def _strategies(hyps, goal):
     out = []
     rel = relevant_hyps(hyps, goal)
     quant = has_quant(hyps, goal)
+    sk = skolem_instances(hyps, goal)
+    if sk is not None:
+        out.append(('z3-skolem-instances', sk[0], False, False, sk[1]))
+        out.append(('z3-skolem-instances-ematch', sk[0], True, False, sk[1]))
     if len(rel) < len(hyps):
         out.append(('z3-relevant-hyps-ematch', rel, True, False))
         out.append(('z3-relevant-hyps', rel, False, False))
@@ -311,14 +343,16 @@ def portfolio(hyps, goal, timeout_ms):
         return q['verdict'], q.get('backend', 'z3'), q.get('model'), time.time() - t0
     strat = _strategies(hyps, goal)
     kids = {}
-    for name, hy, em, dec in strat:
+    for item in strat:
+        name, hy, em, dec = item[:4]
+        g_ = item[4] if len(item) > 4 else goal
         r, w = os.pipe()
         pid = os.fork()
         if pid == 0:
             try:
                 os.close(r)
                 try:
-                    d = _run_strategy(name, hy, goal, em, dec, timeout_ms)
+                    d = _run_strategy(name, hy, g_, em, dec, timeout_ms)
                 except Exception as e:  # noqa
                     d = dict(verdict='unknown', error=str(e))
                 os.write(w, json.dumps(d, default=str).encode())
